@@ -9,20 +9,35 @@ from norm import Alg, TypeEnv, idiv_f, nbit
 def extract_make_sincs(facts):
     fn = facts.need_free_fn("sinc", "make_sincs")
     npoints, factor, f_cutoff, windowfunc = [p["name"] for p in fn["params"]]
-    tenv = TypeEnv(locals_={npoints: "int", factor: "int", f_cutoff: "f32", "totpoints": "int", "x": "int", "p": "int", "n": "int"})
+    tenv = TypeEnv(locals_={npoints: "int", factor: "int", f_cutoff: "f32"})
+    for x_ in walk(fn["body"]):
+        if x_.get("k") == "for":
+            for nm_ in ir.pat_names(x_["pat"]):
+                tenv.locals.setdefault(nm_, "int")
     alg = Alg(tenv, sym_assumptions={npoints: {"integer": True, "positive": True}, factor: {"integer": True, "positive": True}})
     m = {"fn": fn, "alg": alg, "params": (npoints, factor, f_cutoff, windowfunc)}
     env = {}
     for s in fn["body"]["stmts"]:
         if s["k"] == "let" and s["pat"]["k"] == "pident" and s.get("init") is not None:
             env[s["pat"]["name"]] = s["init"]
-    if "totpoints" not in env:
-        raise ir.AnchorMissing("make_sincs: totpoints")
-    m["totpoints"] = alg.conv(env["totpoints"])
-    # window call
-    wc = env.get("window")
-    m["window_call_ok"] = wc is not None and wc.get("k") == "call" and is_path(wc["f"]) and wc["f"]["p"].split("::")[-1] == "make_window" \
-        and [nbit(a) for a in wc["args"]] == ["totpoints", windowfunc]
+    # roles instead of names: the window is the value of the make_window(..) call; its first argument is the total number of points;
+    # the table is the function's tail expression; the tap vector is what the sample loop pushes to; the normaliser is what it accumulates
+    wname = wc = None
+    for nm_, v_ in env.items():
+        if v_.get("k") == "call" and is_path(v_["f"]) and v_["f"]["p"].split("::")[-1] == "make_window":
+            wname, wc = nm_, v_
+    if wc is None:
+        raise ir.AnchorMissing("make_sincs: make_window(..) call")
+    def inl(e):
+        return ir.subst(e, {k_: v2 for k_, v2 in env.items() if v2.get("k") not in ("call", "macro", "mcall")})
+    tot_e = inl(wc["args"][0])
+    tenv.locals[show(wc["args"][0])] = "int"
+    m["totpoints"] = alg.conv(tot_e)
+    m["window_call_ok"] = len(wc["args"]) == 2 and is_path(wc["args"][1], windowfunc) and sp.simplify(m["totpoints"] - alg.sym(npoints) * alg.sym(factor)) == 0
+    tail = fn["body"]["stmts"][-1]
+    table_name = tail["e"]["p"] if tail["k"] == "expr" and tail["e"].get("k") == "path" else None
+    if table_name is None:
+        raise ir.AnchorMissing("make_sincs: the table must be returned as the tail expression")
     # sample loop: for (x, w) in window.iter().enumerate().take(totpoints) { let val = *w * sinc(ARG); sum += val; y.push(val); }
     loops = [s["e"] for s in fn["body"]["stmts"] if s["k"] in ("semi", "expr") and s["e"].get("k") == "for"]
     arg = None
@@ -39,7 +54,7 @@ def extract_make_sincs(facts):
                         m["val_expr"] = st["init"]
     if arg is None:
         raise ir.AnchorMissing("make_sincs: sinc(...) call in the sample loop")
-    av = alg.conv(ir.subst(arg, {"totpoints": env["totpoints"]}))
+    av = alg.conv(inl(arg))
     x = alg.sym(xname)
     fc = alg.sym(f_cutoff)
     # av = (x - centre) * fc / factor  -> centre = root in x ; scale = d/dx
@@ -53,13 +68,21 @@ def extract_make_sincs(facts):
     ve = m["val_expr"]
     m["windowed"] = ve.get("k") == "bin" and ve["op"] == "*" and any(x_.get("k") == "un" and x_["op"] == "*" for x_ in (ve["l"], ve["r"]))
     # normalisation: sum /= coerce(factor) ; entries divided by sum
-    norm = [s["e"] for s in fn["body"]["stmts"] if s["k"] in ("semi", "expr") and s["e"].get("k") == "opassign" and is_path(s["e"]["l"], "sum")]
+    # the accumulated normaliser and the tap vector of the sample loop
+    sum_name = y_name = None
+    for st in m["sample_loop"]["body"]["stmts"]:
+        e_ = st.get("e") if st["k"] in ("semi", "expr") else None
+        if e_ is not None and e_.get("k") == "opassign" and e_["op"] == "+" and e_["l"].get("k") == "path":
+            sum_name = e_["l"]["p"]
+        if e_ is not None and e_.get("k") == "mcall" and e_["name"] == "push" and e_["recv"].get("k") == "path":
+            y_name = e_["recv"]["p"]
+    norm = [s["e"] for s in fn["body"]["stmts"] if s["k"] in ("semi", "expr") and s["e"].get("k") == "opassign" and sum_name and is_path(s["e"]["l"], sum_name)]
     m["norm_div_factor"] = len(norm) == 1 and norm[0]["op"] == "/" and nbit(norm[0]["r"]) == "coerce(%s)" % factor
     # table fill: sincs[ROW][p] = y[IDX] / sum
     fill = None
     for lp in loops:
         for x_ in walk(lp["body"]):
-            if x_.get("k") == "assign" and x_["l"].get("k") == "index" and x_["l"]["e"].get("k") == "index" and is_path(x_["l"]["e"]["e"], "sincs"):
+            if x_.get("k") == "assign" and x_["l"].get("k") == "index" and x_["l"]["e"].get("k") == "index" and is_path(x_["l"]["e"]["e"], table_name):
                 fill = x_
                 outer = lp
     if fill is None:
@@ -69,10 +92,10 @@ def extract_make_sincs(facts):
     rhs = fill["r"]
     yidx = None
     for x_ in walk(rhs):
-        if x_.get("k") == "index" and is_path(x_["e"], "y"):
+        if x_.get("k") == "index" and y_name and is_path(x_["e"], y_name):
             yidx = alg.conv(x_["i"])
     m["fill"] = {"row": row, "col": col, "yidx": yidx, "rhs": rhs, "node": fill}
-    m["fill_div_sum"] = rhs.get("k") == "bin" and rhs["op"] == "/" and is_path(rhs["r"], "sum")
+    m["fill_div_sum"] = rhs.get("k") == "bin" and rhs["op"] == "/" and sum_name is not None and is_path(rhs["r"], sum_name)
     # loop ranges of the fill
     rng = {}
     for lp in [outer] + [x_ for x_ in walk(outer["body"]) if x_.get("k") == "for"]:
@@ -80,6 +103,10 @@ def extract_make_sincs(facts):
         if nm and lp["iter"].get("k") == "range":
             rng[nm[0]] = (nbit(lp["iter"]["lo"]), nbit(lp["iter"]["hi"]))
     m["fill_ranges"] = rng
+    # loop variables of the fill, by role: the column index is the inner index of the assignment target, the other one selects the row
+    col_e = fill["l"]["i"]
+    m["col_var"] = col_e["p"] if col_e.get("k") == "path" else None
+    m["row_vars"] = [v_ for v_ in rng if v_ != m["col_var"]]
     return m
 
 
@@ -88,7 +115,9 @@ def eval_instant(m):
     alg = m["alg"]
     npoints, factor = m["params"][0], m["params"][1]
     F, NP = alg.sym(factor), alg.sym(npoints)
-    p, n = alg.sym("p"), alg.sym("n")
+    if m.get("col_var") is None or len(m.get("row_vars", [])) != 1:
+        return None
+    p, n = alg.sym(m["col_var"]), alg.sym(m["row_vars"][0])
     s = sp.Symbol("s", integer=True)
     f = m["fill"]
     # row = g(n): solve for n as a function of s
